@@ -38,9 +38,16 @@ def m_str_truncate(ex, f, a):
     del s_.chars[n:]; return UNIT
 @exact('String::insert_str')
 def m_str_insert_str(ex, f, a):
-    s_ = ex.deref(a[0])
-    if any(is_sym(c) or c >= 0x80 for c in s_.chars[:a[1]]): raise Unsupported('insert_str on non-ASCII')
-    s_.chars[a[1]:a[1]] = ex.deref(a[2]).chars; return UNIT
+    s_ = ex.deref(a[0]); idx = a[1]
+    if any(is_sym(c) for c in s_.chars): raise Unsupported('insert_str on a text with symbolic characters')
+    if is_sym(idx): idx = ex.concretize(idx, 'insert_str index')
+    pos = 0; at = None                                   # byte index -> character index; std asserts is_char_boundary(idx)
+    for i, c in enumerate(s_.chars):
+        if pos == idx: at = i
+        pos += len(chr(c).encode())
+    if pos == idx: at = len(s_.chars)
+    if at is None: raise Panic('String::insert_str: index %d is not a char boundary (or beyond the end) of a %d-byte text' % (idx, pos))
+    s_.chars[at:at] = ex.deref(a[2]).chars; return UNIT
 @exact('String::into_bytes', 'core::str::<impl str>::as_bytes', 'String::as_bytes')
 def m_as_bytes(ex, f, a): return PyVec(to_bytes(ex, ex.deref(a[0])))
 @exact('core::str::<impl str>::chars')
